@@ -179,6 +179,8 @@ class Enter(_D):
                                                   z3.Select(arr, lo + i) == lib.coro_app(fn if fn is not None else V.VNone,
                                                                                          z3.Select(self.darr, self.dlo + i))))))
         self.started = True        # T-GATHER: every child is started => every disposable is entered once
+        st.check("P6:disposables-are-entered-in-tasks-of-their-own(gather)-never-inline-in-the-task-entering-the-scope"
+                 "(what-a-disposable-does-to-its-context-stays-its-own)", z3.BoolVal(not getattr(self, "inline", False)))
         D = lambda k: z3.Select(self.darr, self.dlo + k)
         if aw.data["return_exceptions"]:
             R = z3.Lambda([i], z3.If(enter_ok(D(i)), init_val(it, D(i)), enter_exc(D(i))))
@@ -198,9 +200,22 @@ class Enter(_D):
         self.failed = None
         raise PyRaise(it.new_exc("CancelledError"), "cancelled while entering disposables")
 
+    def on_await(self, it, aw, idx, node):
+        """Anything the function awaits that is not the gather of the per-disposable children: a disposable entered inline,
+        in the very task (and context) that enters the scope."""
+        st = it.st
+        if aw.kind == "gather":
+            return NotImplemented
+        self.inline = True
+        st.check("P6:disposables-are-entered-in-tasks-of-their-own(gather)-never-inline-in-the-task-entering-the-scope"
+                 "(what-a-disposable-does-to-its-context-stays-its-own)", z3.BoolVal(False))
+        raise PathEnd("a disposable entered inline")
+
     def on_return(self, it, ret):
         st = it.st
         st.check("P1:every-disposable-was-entered", z3.BoolVal(bool(self.started)))
+        if not hasattr(self, "R"):
+            return
         arr, lo, hi = lib.seq_view(it, ret)
         R, n = self.R, self.n
         st.check("P1:result-is-the-in-order-concatenation-of-the-yielded-state",
